@@ -107,6 +107,9 @@ def src_text(node):
     return s
 
 
+SEGPRESS = []      # SegmentPressures::Value enum, filled by generate()
+
+
 def to_lean(node, rts, atoms):
     name, targs, args = node
     if name in BIN:
@@ -136,6 +139,25 @@ def to_lean(node, rts, atoms):
             if ph not in HPHASE:
                 raise TranslateError(f"funs: history of unsupported phase {targs[0]}")
             return f"(.{HIST[name]} .{HPHASE[ph]})"
+        if name == "region_rate" and targs and len(targs) == 2 and targs[0].startswith("rt::") \
+                and targs[1] in ("injector", "producer"):
+            ph = targs[0][4:]
+            if ph not in rts:
+                raise TranslateError(f"funs: unknown rate component {targs[0]}")
+            return f"(.regionRate .{lean_id(ph)} {'true' if targs[1] == 'injector' else 'false'})"
+        if name == "crate_resv" and targs and len(targs) == 1 and targs[0] in ("injector", "producer"):
+            return f"(.crateResv {'true' if targs[0] == 'injector' else 'false'})"
+        if name == "cpr" and targs is None:
+            return ".cpr"
+        if name == "segpress" and targs and len(targs) == 1:
+            v = targs[0].split("::")[-1]
+            if v not in SEGPRESS:
+                raise TranslateError(f"funs: unknown segment pressure item {targs[0]}")
+            return f"(.segpress {SEGPRESS.index(v)})"
+        if name == "node_pressure" and targs is None:
+            return "(.nodePressure false)"
+        if name == "converged_node_pressure" and targs is None:
+            return "(.nodePressure true)"
     txt = src_text(node)
     atoms[txt] = atoms.get(txt, 0) + 1
     return f'(.atom "{txt}")'
@@ -269,6 +291,11 @@ def generate(repo):
         if not mm:
             raise TranslateError(f"Wells.hpp: unexpected Rates::opt item {item!r}")
         rts.append(mm.group(1))
+
+    m = re.search(r"class\s+SegmentPressures\s*\{\s*public:\s*enum\s+class\s+Value\s*:\s*std::size_t\s*\{([^}]*)\}", wh)
+    if not m:
+        raise TranslateError("Wells.hpp: SegmentPressures::Value not found")
+    SEGPRESS[:] = [x.strip() for x in m.group(1).split(",") if x.strip()]
 
     # --- rate_unit<> --------------------------------------------------------
     rate_unit = {}
@@ -404,6 +431,86 @@ def generate(repo):
         if not re.search(pat, rb_):
             raise TranslateError("rate<> no longer has the modelled shape: " + pat[:40])
 
+    # connection / completion / segment / region / node leaves: the shapes the model assumes
+    def need(fn_pat, what, pats):
+        b = block_after(src, fn_pat, what)
+        for pat in pats:
+            if not re.search(pat, b, re.S):
+                raise TranslateError(f"{what} no longer has the modelled shape: " + pat[:50])
+        return b
+    head = [r"if\s*\(\s*args\.schedule_wells\.empty\(\)\s*\)\s*(?:\{\s*)?return\s+zero;",
+            r"args\.schedule_wells\.front\(\)",
+            r"xwPos\s*==\s*args\.wells\.end\(\)\s*\)\s*\|\|\s*\(\s*xwPos->second\.dynamicStatus\s*==\s*Opm::Well::Status::SHUT\s*\)"]
+    typed = [r"\|\|\s*\(\s*xwPos->second\.current_control\.isProducer\s*==\s*injection\s*\)"]
+    byidx = [r"global_index\s*=\s*(?:static_cast<std::size_t>\(\s*)?args\.num\s*-\s*1",
+             r"c\.index\s*==\s*global_index",
+             r"==\s*well_data\.connections\.end\(\)\s*\)\s*return\s+zero;"]
+    unit_l = [r"\(\s*\(?\s*phase\s*==\s*rt::polymer\s*\)?\s*\|\|\s*\(?\s*phase\s*==\s*rt::brine\s*\)?\s*\)\s*\?\s*measure::mass_rate\s*:\s*rate_unit<\s*phase\s*>\(\)"]
+    need(r"template<\s*rt\s+phase\s*,\s*bool\s+injection\s*=\s*true\s*>\s*inline\s+quantity\s+crate\s*\(\s*const\s+fn_args&\s+args\s*\)\s*\{", "crate<>",
+         unit_l + [r"const\s+quantity\s+zero\s*=\s*\{\s*0\s*,\s*unit\s*\}"] +
+         head + typed + byidx + [r"auto\s+v\s*=\s*completion->rates\.get\(\s*phase\s*,\s*0\.0\s*\)\s*\*\s*eff_fac;",
+                                 r"if\s*\(\s*!\s*injection\s*\)\s*v\s*\*=\s*-1;",
+                                 r"if\s*\(\s*phase\s*==\s*rt::polymer\s*\|\|\s*phase\s*==\s*rt::brine\s*\)\s*return\s*\{\s*v\s*,\s*measure::mass_rate\s*\}",
+                                 r"return\s*\{\s*v\s*,\s*rate_unit<\s*phase\s*>\(\)\s*\}"])
+    need(r"template\s*<\s*bool\s+injection\s*=\s*true\s*>\s*quantity\s+crate_resv\s*\(\s*const\s+fn_args&\s+args\s*\)\s*\{", "crate_resv<>",
+         head + typed + byidx + [r"auto\s+v\s*=\s*completion->reservoir_rate\s*\*\s*eff_fac;",
+                                 r"if\s*\(\s*!\s*injection\s*\)\s*v\s*\*=\s*-1;",
+                                 r"return\s*\{\s*v\s*,\s*rate_unit<rt::reservoir_oil>\(\)\s*\}"])
+    need(r"inline\s+quantity\s+cpr\s*\(\s*const\s+fn_args&\s+args\s*\)\s*\{", "cpr",
+         [head[0][:-1].replace("return\\s+zero", "return\\s+zero") , head[1], head[2]] + byidx[:2] +
+         [r"return\s*\{\s*connection->pressure\s*,\s*measure::pressure\s*\}"])
+    loop_l = [r"conn_ptr->global_index\(\)", r"cdata\.index\s*==\s*global_index",
+              r"if\s*\(\s*conn_data\s*!=\s*well_data\.connections\.end\(\)\s*\)\s*\{\s*sum\s*\+=\s*conn_data->rates\.get\(\s*phase\s*,\s*0\.0\s*\)\s*\*\s*eff_fac;",
+              r"if\s*\(\s*!\s*injection\s*\)\s*\{\s*sum\s*\*=\s*-1;"]
+    need(r"template<\s*rt\s+phase\s*,\s*bool\s+injection\s*=\s*true\s*>\s*inline\s+quantity\s+ratel\s*\(\s*const\s+fn_args&\s+args\s*\)\s*\{", "ratel<>",
+         unit_l + head[1:] + typed + loop_l + [r"well->getConnections\(\s*args\.num\s*\)"])
+    need(r"template<\s*rt\s+phase\s*,\s*bool\s+injection\s*=\s*true\s*>\s*inline\s+quantity\s+cratel\s*\(\s*const\s+fn_args&\s+args\s*\)\s*\{", "cratel<>",
+         unit_l + head[1:] + typed + loop_l +
+         [r"getCompletionNumberFromGlobalConnectionIndex\(\s*well->getConnections\(\)\s*,\s*args\.num\s*-\s*1\s*\)",
+          r"if\s*\(\s*!\s*complnum\.has_value\(\)\s*\)[^;]*return\s+zero;", r"well->getConnections\(\s*\*complnum\s*\)"])
+    need(r"quantity\s+segment_quantity\s*\([^)]*\)\s*\{", "segment_quantity",
+         head[1:] + [r"segNumber\s*=\s*static_cast<std::size_t>\(\s*args\.num\s*\)", r"well_data\.segments\.find\(\s*segNumber\s*\)",
+                     r"return\s*\{\s*getValue\(\s*segPos->second\s*\)\s*,\s*m\s*\}"])
+    need(r"template\s*<\s*rt\s+phase\s*>\s*inline\s+quantity\s+srate\s*\(\s*const\s+fn_args&\s+args\s*\)\s*\{", "srate<>",
+         [r"\(\s*\(\s*phase\s*==\s*rt::polymer\s*\)\s*\|\|\s*\(\s*phase\s*==\s*rt::brine\s*\)\s*\)\s*\?\s*measure::mass_rate\s*:\s*rate_unit<\s*phase\s*>\(\)",
+          r"return\s*-\s*segment\.rates\.get\(\s*phase\s*,\s*0\.0\s*\)\s*\*\s*efac\(\s*args\.eff_factors\s*,\s*args\.schedule_wells\.front\(\)->name\(\)\s*\)"])
+    need(r"template\s*<\s*Opm::data::SegmentPressures::Value\s+ix\s*>\s*inline\s+quantity\s+segpress\s*\(\s*const\s+fn_args&\s+args\s*\)\s*\{", "segpress<>",
+         [r"segment_quantity\(\s*args\s*,\s*measure::pressure", r"return\s+segment\.pressures\[\s*ix\s*\]"])
+    need(r"template<\s*rt\s+phase\s*,\s*bool\s+injection\s*>\s*quantity\s+region_rate\s*\(\s*const\s+fn_args&\s+args\s*\)\s*\{", "region_rate<>",
+         [r"args\.regionCache\.connections\(\s*std::get<std::string>\(\s*\*args\.extra_data\s*\)\s*,\s*args\.num\s*\)",
+          r"xwPos\s*=\s*args\.wells\.find\(\s*pair\.first\s*\)\s*;\s*if\s*\(\s*\(\s*xwPos\s*!=\s*args\.wells\.end\(\)\s*\)\s*&&\s*"
+          r"\(\s*xwPos->second\.dynamicStatus\s*==\s*Opm::Well::Status::SHUT\s*\)\s*\)\s*\{\s*continue;",
+          r"double\s+eff_fac\s*=\s*efac\(\s*args\.eff_factors\s*,\s*pair\.first\s*\)",
+          r"double\s+Rate\s*=\s*args\.wells\.get\(\s*pair\.first\s*,\s*pair\.second\s*,\s*phase\s*\)\s*\*\s*eff_fac;",
+          r"if\s*\(\s*\(\s*Rate\s*>\s*0\s*\)\s*!=\s*injection\s*\)\s*\{\s*Rate\s*=\s*0;", r"sum\s*\+=\s*Rate;",
+          r"if\s*\(\s*injection\s*\)\s*return\s*\{\s*sum\s*,\s*rate_unit<\s*phase\s*>\(\)\s*\}\s*;\s*else\s*return\s*\{\s*-sum\s*,\s*rate_unit<\s*phase\s*>\(\)\s*\}"])
+    for fn, fld in (("node_pressure", "pressure"), ("converged_node_pressure", "converged_pressure")):
+        need(r"inline\s+quantity\s+" + fn + r"\s*\(\s*const\s+fn_args&\s+args\s*\)\s*\{", fn,
+             [r"args\.grp_nwrk\.nodeData\.find\(\s*args\.group_name\s*\)", r"return\s*\{\s*0\.0\s*,\s*measure::pressure\s*\}",
+              r"return\s*\{\s*nodePos->second\." + fld + r"\s*,\s*measure::pressure\s*\}"])
+    # find_wells / setFactors treat Connection, Completion, Segment like Well and Region like Field
+    fw = block_after(src, r"find_wells\s*\(\s*const\s+Opm::Schedule&\s+schedule\s*,[^)]*\)\s*\{", "find_wells")
+    if not re.search(r"Category::Well:\s*case\s+Opm::EclIO::SummaryNode::Category::Connection:\s*case\s+Opm::EclIO::SummaryNode::Category::Completion:\s*"
+                     r"case\s+Opm::EclIO::SummaryNode::Category::Segment:\s*return\s+find_single_well\(", fw):
+        raise TranslateError("find_wells: Connection/Completion/Segment no longer use find_single_well")
+    if not re.search(r"Category::Region:\s*return\s+find_region_wells\(", fw):
+        raise TranslateError("find_wells: Region no longer uses find_region_wells")
+    frw = block_after(src, r"find_region_wells\s*\([^)]*\)\s*\{", "find_region_wells")
+    for pat in (r"regionCache\.connections\(\s*\*node\.fip_region\s*,\s*region\s*\)", r"schedule\.hasWell\(\s*w_name\s*,\s*sim_step\s*\)",
+                r"sort_wells_by_insert_index\(\s*result\s*\)"):
+        if not re.search(pat, frw):
+            raise TranslateError("find_region_wells no longer has the modelled shape: " + pat[:40])
+    cc = re.search(r'conn_compl_kw\s*=\s*std::regex\s*\{\s*R"\((.*?)\)"', cfg)
+    if not cc or cc.group(1) != "C[OGW][IP][RT]L":
+        raise TranslateError("is_connection_completion: regex changed")
+    if not (0 <= pk.find("is_well_completion(keyword)") < pk.find("is_connection_completion(keyword)") < pk.find("is_rate(keyword)")):
+        raise TranslateError("parseKeywordType: completion suffixes are expected to be dropped before is_rate")
+    for fn, ref in (("update_conn_var", "cval_ref"), ("update_segment_var", "sval_ref")):
+        if not re.search(r"void\s+SummaryState::" + fn + r"\([^)]*\)\s*\{.{0,300}?if\s*\(\s*is_total\(\s*var\s*\)\s*\)\s*\{\s*val_ref\s*\+=\s*value;\s*" + ref + r"\s*\+=\s*value;", st, re.S):
+            raise TranslateError(f"SummaryState::{fn}: accumulate-if-total shape not found")
+    if not re.search(r"update_region_var\([^)]*\)\s*\{.*?if\s*\(\s*is_total\(\s*regKw\s*\)\s*\)\s*\{\s*val_ref\s*\+=\s*value;\s*rval_ref\s*\+=\s*value;", st, re.S):
+        raise TranslateError("SummaryState::update_region_var: accumulate-if-total shape not found")
+
     # --- emit -------------------------------------------------------------------
     out = ["/- GENERATED by translate/sumfuns.py from opm/output/eclipse/Summary.cpp, SummaryState.cpp,",
            "   SummaryConfig.cpp, UnitSystem.hpp, output/data/Wells.hpp — do not edit. -/",
@@ -413,6 +520,8 @@ def generate(repo):
     out.append("def measureNames : List String := [" + ", ".join(f'"{x}"' for x in measures) + "]")
     out.append("/-- `data::Rates::opt`, declaration order. -/")
     out.append("def rtNames : List String := [" + ", ".join(f'"{x}"' for x in rts) + "]")
+    out.append("/-- `data::SegmentPressures::Value`, declaration order (`segpress i` is position `i`). -/")
+    out.append("def segPressNames : List String := [" + ", ".join(f'"{x}"' for x in SEGPRESS) + "]")
     out.append("")
     out.append("/-- `rate_unit<rt::X>()` specialisations; every other component gets `rateUnitDefault`. -/")
     out.append("def rateUnitDefault : String := \"" + default_unit + "\"")
